@@ -52,7 +52,12 @@ def std_run(engine, job, obligations_fn, marker, prop, scen, files=None, opt='O1
                 res['inconclusive'].append(msg)
             continue
         sec = api.sections(r.st.obs)
-        obls = obligations_fn(sec, job, r.st)
+        try:
+            obls = obligations_fn(sec, job, r.st)
+        except (IndexError, KeyError) as e:
+            # the observations do not even have the shape the oracle expects (a list shorter than the structure announced, a
+            # section missing): that is a disagreement with the expected behaviour, not something to crash on
+            obls = [Obl('structure/observations-malformed', True, 'observations do not have the expected structure (%s: %s)' % (type(e).__name__, e))]
         if first:
             vacuity_twin(eng, r.st, obls, res); first = False
             res['sample'] = sample_of(job, r, sec)
